@@ -26,6 +26,7 @@ type Contract struct {
 	Decreases   map[int]*Clause
 	Assigns     []*Clause // nil = unspecified; a clause with Text "nothing" = pure
 	HasAssigns  bool
+	AssignsAssumed bool
 	NoInline    bool
 	Inline      bool // execute the body in place at call sites (with this contract's loop annotations) instead of using the contract
 	Unroll      map[int]int
@@ -268,7 +269,12 @@ func (c *Contract) addClause(word, rest string, line int) error {
 		} else {
 			c.Decreases[k] = cl
 		}
-	case "assigns":
+	case "assumes-assigns", "assigns":
+		// "assumes-assigns" is used at call sites like assigns, but implementations are NOT checked against it: a
+		// stated assumption (reported in evidence)
+		if word == "assumes-assigns" {
+			c.AssignsAssumed = true
+		}
 		c.HasAssigns = true
 		if strings.TrimSpace(rest) != "nothing" {
 			for _, part := range splitTop(rest, ',') {
